@@ -51,6 +51,7 @@ pub open spec fn valid_size(s: u64) -> bool {
 }
 
 /// m is a multiple of a (used as quantifier trigger)
+#[verifier::opaque]
 pub open spec fn is_mult(m: int, a: int) -> bool { m % a == 0 }
 
 /// upper half?
@@ -211,6 +212,7 @@ pub proof fn lemma_floor_multiple(a: int, al: int)
         forall|m: int| #[trigger] is_mult(m, al) && m >= a && a % al != 0 ==> m >= a - a % al + al,
         0 <= a % al < al,
 {
+    reveal(is_mult);
     lemma_fundamental_div_mod(a, al);
     let qa = a / al;
     lemma_mul_is_commutative(al, qa);
